@@ -68,38 +68,37 @@ Proof. exact c_lax_max_digits_carry. Qed.
    classes, negations, constrained scalars and Optional-style rules over a stable origin, homogeneous
    sequences (list / set / frozenset / variable-length tuple) of stable element types, fixed-length
    tuples Tuple[T1, ..., Tn] and mappings Dict[K, V] of stable types, all with checking (non-lax) constraints;
-   `throwing o` — the default 'throw' policies; `xor_exact t w` — wherever the type has an exclusive-or, the result
-   there is an exact instance of one of its arguments (what the ^ loop returns; the one fact about w that is assumed
-   rather than derived; trivially true of types without ^).  Everything else the proof needs about w (exact classes
-   of converted scalars — int(...) returns an int proper: the bool found in a one-element sequence is no longer handed
-   through —, of elements, of union results, of rebuilt containers) is derived from the first parse. *)
+   `throwing o` — the default 'throw' policies.  Nothing is assumed about the result w: that it has the declared
+   classes position by position (`typed`: converted scalars — int(...) returns an int proper —, elements, the results
+   of the three union stages and of the ^ loop, rebuilt containers) is derived from the first parse
+   (C03_results_are_typed). *)
 
 (* through type_transform(value, T, options), the entry the idempotence oracle drives on the implementation *)
 Theorem C03_reparse_returns_the_result :
   forall re D fuel o t v w, throwing o -> stable t = true ->
-  type_transform re D fuel o t v = Ok w -> xor_exact t w = true ->
+  type_transform re D fuel o t v = Ok w ->
   type_transform re D fuel o t w = Ok w.
 Proof. exact type_transform_reparse. Qed.
 
 (* through T(value) for a constrained or logical type *)
 Theorem C03_reparse_call :
   forall re D fuel o t v w, throwing o -> stable t = true ->
-  call_type re D fuel o t v = Ok w -> xor_exact t w = true -> call_type re D fuel o t w = Ok w.
+  call_type re D fuel o t v = Ok w -> call_type re D fuel o t w = Ok w.
 Proof. exact call_type_reparse. Qed.
 
 (* at any nesting level, from any state of the enclosing context that carries no error: the second parse also
    leaves the context as it found it *)
 Theorem C03_reparse_nested :
   forall re D fuel o depth t v s s' w, throwing o -> stable t = true ->
-  transform re D fuel o depth t v s = (s', Ok w) -> xor_exact t w = true ->
+  transform re D fuel o depth t v s = (s', Ok w) ->
   forall s2, clean s2 -> transform re D fuel o depth t w s2 = (s2, Ok w).
 Proof. exact transform_reparse. Qed.
 
 (* what the first parse returns has the declared classes position by position *)
 Theorem C03_results_are_typed :
   forall re D fuel o depth t v s s' w, throwing o -> stable t = true ->
-  transform re D fuel o depth t v s = (s', Ok w) -> xor_exact t w = true -> typed t w = true.
-Proof. intros re D fuel o depth t v s s' w Ho Hst H Hi. exact (proj1 (transform_typed re D fuel o depth t v s s' w Ho Hst H Hi)). Qed.
+  transform re D fuel o depth t v s = (s', Ok w) -> typed t w = true.
+Proof. intros re D fuel o depth t v s s' w Ho Hst H. exact (proj1 (transform_typed re D fuel o depth t v s s' w Ho Hst H)). Qed.
 
 (* non-vacuity: Set[int] with a length constraint, from strings with a duplicate; Optional[int] *)
 Definition set_of_int : ty := TRule (Some (TPrim TSet)) [TPrim TInt] false [("max_length", PInt 3, false)] None None None.
@@ -107,7 +106,6 @@ Example C03_reparse_nonvacuous :
   let w := PSet [PInt 1; PInt 2] in
   stable set_of_int = true /\ throwing default_options /\
   type_transform (fun _ _ => false) (fun _ => None) 5 default_options set_of_int (PList [PStr "1"; PInt 2; PStr "1"]) = Ok w /\
-  xor_exact set_of_int w = true /\
   type_transform (fun _ _ => false) (fun _ => None) 5 default_options set_of_int w = Ok w.
 Proof. repeat split; vm_compute; reflexivity. Qed.
 (* int([True]) is the int 1 (it used to be the bool True, which re-parsed to the equal but different 1) *)
@@ -124,7 +122,6 @@ Example C03_reparse_mapping_nonvacuous :
   stable dict_int_str = true /\
   type_transform (fun _ _ => false) (fun _ => None) 5 default_options dict_int_str
      (PDict [(PStr "1", PStr "a"); (PInt 2, PInt 3); (PInt 1, PStr "b")]) = Ok w /\
-  xor_exact dict_int_str w = true /\
   type_transform (fun _ _ => false) (fun _ => None) 5 default_options dict_int_str w = Ok w.
 Proof. repeat split; vm_compute; reflexivity. Qed.
 
@@ -134,6 +131,5 @@ Example C03_reparse_tuple_nonvacuous :
   let w := PTuple [PInt 1; PStr "2"] in
   stable tuple_int_str = true /\
   type_transform (fun _ _ => false) (fun _ => None) 5 default_options tuple_int_str (PList [PStr "1"; PInt 2]) = Ok w /\
-  xor_exact tuple_int_str w = true /\
   type_transform (fun _ _ => false) (fun _ => None) 5 default_options tuple_int_str w = Ok w.
 Proof. repeat split; vm_compute; reflexivity. Qed.
